@@ -36,7 +36,8 @@ type Ev struct {
 	Got    []map[string]string    `json:"got"`    // read: the full rows returned
 	Before map[string]string      `json:"before"` // write
 	After  map[string]string      `json:"after"`
-	K      int                    `json:"k"`    // garble: position in the undelivered log (1-based)
+	K      int                    `json:"k"`    // garble: first row of the statement in the undelivered log (1-based)
+	N      int                    `json:"n"`    // garble / deliver: how many rows the statement changed (one change event carries them all)
 	Bad    bool                   `json:"bad"`  // deliver: the event could not be decoded
 	Inv    []string               `json:"inv"`  // deliver: queries whose dependency was invalidated
 	Held   map[string][]map[string]string `json:"held"` // quiescent: the full rows every query holds
@@ -61,8 +62,9 @@ type query struct {
 }
 
 type pending struct {
-	evs []*replication.BinlogEvent
-	bad bool
+	evs   []*replication.BinlogEvent
+	bad   bool
+	nrows int
 }
 
 type scenario struct {
@@ -76,6 +78,7 @@ type scenario struct {
 	pend    []pending
 	inv     []string
 	procN   int
+	delivering int // rows of the statement whose change event is being delivered
 	dropN   int
 	fdb     *fakesql.DB
 	tids    map[string]uint64
@@ -164,7 +167,10 @@ func (l errLogger) Info(string, ...interface{})  {}
 func (l errLogger) Debug(string, ...interface{}) {}
 func (l errLogger) Warn(string, ...interface{})  {}
 
-func toBinlog(def fakesql.TableDef, database string, e fakesql.Event, tids map[string]uint64) []*replication.BinlogEvent {
+// toBinlog turns the row changes of ONE statement (all of one kind) into a table map event (when the table's id
+// changed) and one rows event carrying every changed row, as MySQL does.
+func toBinlog(def fakesql.TableDef, database string, evs []fakesql.Event, tids map[string]uint64) []*replication.BinlogEvent {
+	e := evs[0]
 	var out []*replication.BinlogEvent
 	tm := &replication.TableMapEvent{TableID: e.TableID, Schema: []byte(database), Table: []byte(e.Table)}
 	if tids[e.Table] != e.TableID {
@@ -176,13 +182,19 @@ func toBinlog(def fakesql.TableDef, database string, e fakesql.Event, tids map[s
 	switch e.Kind {
 	case "insert":
 		typ = replication.WRITE_ROWS_EVENTv2
-		re.Rows = [][]interface{}{fakesql.BinlogRow(def, e.After)}
+		for _, x := range evs {
+			re.Rows = append(re.Rows, fakesql.BinlogRow(def, x.After))
+		}
 	case "update":
 		typ = replication.UPDATE_ROWS_EVENTv2
-		re.Rows = [][]interface{}{fakesql.BinlogRow(def, e.Before), fakesql.BinlogRow(def, e.After)}
+		for _, x := range evs {
+			re.Rows = append(re.Rows, fakesql.BinlogRow(def, x.Before), fakesql.BinlogRow(def, x.After))
+		}
 	default:
 		typ = replication.DELETE_ROWS_EVENTv2
-		re.Rows = [][]interface{}{fakesql.BinlogRow(def, e.Before)}
+		for _, x := range evs {
+			re.Rows = append(re.Rows, fakesql.BinlogRow(def, x.Before))
+		}
 	}
 	out = append(out, &replication.BinlogEvent{Header: &replication.EventHeader{EventType: typ}, Event: re})
 	return out
@@ -204,7 +216,7 @@ func runScenario(r *rand.Rand, scn int, nq, nwrites int, garble bool) ([]Ev, err
 	db := sqlgen.NewDB(conn, sqlzoo.Schema())
 	ldb := livesql.NewLiveDB(db)
 	// initial rows
-	nrows := r.Intn(4)
+	nrows := 2 + r.Intn(5)
 	for id := 1; id <= nrows; id++ {
 		if _, err := db.InsertRow(context.Background(), sqlzoo.RandomUser(r, int64(id))); err != nil {
 			return nil, err
@@ -218,6 +230,12 @@ func runScenario(r *rand.Rand, scn int, nq, nwrites int, garble bool) ([]Ev, err
 	seen := map[string]bool{}
 	for len(s.queries) < nq {
 		f, a := sqlzoo.RandomFilter(r, []string{"id", "org", "name", "age", "nick", "kind", "small", "note"})
+		if len(s.queries) == 0 && scn%2 == 0 {
+			// directed: a query that only the last row can match, so that a statement changing several rows
+			// reaches it through the last row images of its rows event alone
+			fv := sqlzoo.FVal{Rep: "int64", V: fmt.Sprint(nrows)}
+			f, a = sqlgen.Filter{"id": sqlzoo.Go("id", fv)}, map[string]sqlzoo.FVal{"id": fv}
+		}
 		bq, err := db.Schema.MakeSelect(&[]*sqlzoo.User{}, f, nil)
 		if err != nil {
 			return nil, err
@@ -286,7 +304,7 @@ func runScenario(r *rand.Rand, scn int, nq, nwrites int, garble bool) ([]Ev, err
 		case "binlog.processed":
 			s.mu.Lock()
 			sort.Strings(s.inv)
-			s.emit(Ev{Ev: "deliver", Bad: args[1] != nil && args[1].(error) != nil, Inv: s.inv})
+			s.emit(Ev{Ev: "deliver", Bad: args[1] != nil && args[1].(error) != nil, Inv: s.inv, N: s.delivering})
 			s.inv = nil
 			s.procN++
 			s.mu.Unlock()
@@ -353,8 +371,9 @@ func runScenario(r *rand.Rand, scn int, nq, nwrites int, garble bool) ([]Ev, err
 		s.mu.Lock()
 		for _, e := range evs {
 			s.emit(Ev{Ev: "write", Before: absOrNone(e.Before), After: absOrNone(e.After)})
-			s.pend = append(s.pend, pending{evs: toBinlog(e.Def, "zoo", e, s.tids)})
 		}
+		// the driver only issues statements whose row changes are all of one kind
+		s.pend = append(s.pend, pending{evs: toBinlog(evs[0].Def, "zoo", evs, s.tids), nrows: len(evs)})
 		s.mu.Unlock()
 	}
 	defer func() {
@@ -486,7 +505,14 @@ func runScenario(r *rand.Rand, scn int, nq, nwrites int, garble bool) ([]Ev, err
 		case "write":
 			writesLeft--
 			var err error
-			switch k := r.Intn(4); {
+			k := r.Intn(6)
+			if scn%2 == 0 && r.Intn(2) == 0 {
+				k = 5 // the directed scenarios lean towards statements that change several rows
+			}
+			switch {
+			case k >= 4 && len(ids) > 1:
+				// one statement changing several rows: MySQL puts them into a single rows event
+				_, err = conn.ExecContext(context.Background(), "UPDATE users SET small = ? WHERE org = ?", int64(r.Intn(2)), int64(1+r.Intn(2)))
 			case k == 0 || len(ids) == 0:
 				u := sqlzoo.RandomUser(r, nextID)
 				ids = append(ids, nextID)
@@ -529,13 +555,18 @@ func runScenario(r *rand.Rand, scn int, nq, nwrites int, garble bool) ([]Ev, err
 						re.Rows[i][0] = "not-a-number"
 					}
 				}
-				s.emit(Ev{Ev: "garble", K: k + 1})
+				first := 1
+				for _, q := range s.pend[:k] {
+					first += q.nrows
+				}
+				s.emit(Ev{Ev: "garble", K: first, N: p.nrows})
 			}
 			s.mu.Unlock()
 		case "deliver":
 			s.mu.Lock()
 			p := s.pend[0]
 			s.pend = s.pend[1:]
+			s.delivering = p.nrows
 			beforeProc, beforeDrop := s.procN, s.dropN
 			s.mu.Unlock()
 			for _, e := range p.evs {
@@ -564,7 +595,7 @@ func runScenario(r *rand.Rand, scn int, nq, nwrites int, garble bool) ([]Ev, err
 				dropped = s.procN == beforeProc
 			}
 			if dropped {
-				s.emit(Ev{Ev: "deliver", Bad: true, Inv: []string{}})
+				s.emit(Ev{Ev: "deliver", Bad: true, Inv: []string{}, N: p.nrows})
 			}
 			s.mu.Unlock()
 			// invalidated queries re-run on their own goroutines: give them the time to get going
